@@ -7,7 +7,7 @@
    doubles the code reads, scaled by one power of two).
    The angle bookkeeping of _order_nodes is modelled without sqrt/arccos: d_angles[j] is
    represented by (side, s, m) with side = (d_side > 0), s = node_zero . node_diff,
-   m = |node_diff|^2, and every comparison between two d_angles the code performs
+   m = |node_diff|^2 (node_zero, node_diff projected onto the tangent plane at the node), and every comparison between two d_angles the code performs
    (d_current < d_angles[k] < d_next, with 0.0 and 2*pi as initial bounds) is decided exactly from
    the signs and cross-multiplied squares of these integers.  The selection loop keeps its strict
    inequalities and its `continue` (cell left at the fill value) when nothing qualifies.
@@ -64,7 +64,7 @@ Definition c18_pos (ps : list c18_vec) (i : Z) : c18_vec := nth (Z.to_nat i) ps 
 (* d_angles[j] without arccos                                                                   *)
 
 Record c18_key := { c18_side : bool;    (* d_side > 0.0 : the angle is 2*pi - arccos(..) *)
-                    c18_s : Z;          (* node_zero . node_diff *)
+                    c18_s : Z;          (* node_zero . node_diff   (projected vectors, see below) *)
                     c18_m : Z;          (* |node_diff|^2 *)
                     c18_zz : Z }.       (* |node_zero|^2 *)
 
@@ -96,10 +96,37 @@ Definition c18_angle_lt (a b : c18_key) : bool :=
 Definition c18_angle_gt0 (a : c18_key) : bool := if c18_side a then true else negb (c18_theta_zero a).
 Definition c18_angle_lt2pi (a : c18_key) : bool := if c18_side a then negb (c18_theta_zero a) else true.
 
+(* Since fix c8b893ff node_zero and node_diff are projected onto the tangent plane at the central
+   node before norms and dot products are taken:  x -= np.dot(x, node_central) * node_central.
+   node_central is a unit vector (up to rounding, C04), for which this is the orthogonal projection;
+   the model uses the orthogonal projection for ANY n, scaled by N = n.n > 0 to stay in Z:
+       c18_proj n x = N x - (x.n) n .
+   Proofs/C18_proofs.v shows (ring identities)
+       proj a . proj b          = N * (N (a.b) - (a.n)(b.n))
+       (c x n) . proj b         = N * ((c x n) . b)
+   so, dropping the common positive factors (they cancel in every comparison the code makes), the
+   key is computed from the unprojected vectors as follows. *)
+Definition c18_proj (n x : c18_vec) : c18_vec :=
+  let nn := c18_dot n n in let xn := c18_dot x n in
+  (nn * c18_vx x - xn * c18_vx n, nn * c18_vy x - xn * c18_vy n, nn * c18_vz x - xn * c18_vz n).
+
+Definition c18_pdot (n a b : c18_vec) : Z :=          (* (proj a . proj b) / N *)
+  c18_dot n n * c18_dot a b - c18_dot a n * c18_dot b n.
+
 Definition c18_make_key (node_0 node_central sub : c18_vec) : c18_key :=
   let node_zero := c18_sub node_0 node_central in
   let node_cross := c18_cross node_0 node_central in
   let node_diff := c18_sub sub node_central in
+  {| c18_side := c18_qpos (c18_dot node_cross node_diff);
+     c18_s := c18_pdot node_central node_zero node_diff;
+     c18_m := c18_pdot node_central node_diff node_diff;
+     c18_zz := c18_pdot node_central node_zero node_zero |}.
+
+(* the literal form: keys from the projected vectors themselves *)
+Definition c18_make_key_literal (node_0 node_central sub : c18_vec) : c18_key :=
+  let node_zero := c18_proj node_central (c18_sub node_0 node_central) in
+  let node_cross := c18_cross node_0 node_central in
+  let node_diff := c18_proj node_central (c18_sub sub node_central) in
   {| c18_side := c18_qpos (c18_dot node_cross node_diff);
      c18_s := c18_dot node_zero node_diff;
      c18_m := c18_dot node_diff node_diff;
@@ -146,6 +173,21 @@ Definition c18_order_nodes (temp_face : list Z) (node_central : c18_vec) (dual_p
       let node_0 := c18_pos dual_pos f0 in
       let keys := combine (seq 1 (length rest))
                           (map (fun f => c18_make_key node_0 node_central (c18_pos dual_pos f)) rest) in
+      let sel := c18_select c18_angle_lt c18_angle_gt0 c18_angle_lt2pi (length rest) None keys in
+      let body := f0 :: map (fun o => match o with Some k => nth k temp_face FILL | None => FILL end) sel in
+      body ++ repeat FILL (max_edges - length body)
+  end.
+
+(* the same with the keys computed literally from the projected vectors (reference form; proved
+   equal to c18_order_nodes for node_central <> 0 in Proofs/C18_proofs.v) *)
+Definition c18_order_nodes_literal (temp_face : list Z) (node_central : c18_vec) (dual_pos : list c18_vec)
+           (max_edges : nat) : list Z :=
+  match temp_face with
+  | [] => repeat FILL max_edges
+  | f0 :: rest =>
+      let node_0 := c18_pos dual_pos f0 in
+      let keys := combine (seq 1 (length rest))
+                          (map (fun f => c18_make_key_literal node_0 node_central (c18_pos dual_pos f)) rest) in
       let sel := c18_select c18_angle_lt c18_angle_gt0 c18_angle_lt2pi (length rest) None keys in
       let body := f0 :: map (fun o => match o with Some k => nth k temp_face FILL | None => FILL end) sel in
       body ++ repeat FILL (max_edges - length body)
